@@ -75,7 +75,8 @@ type Term struct {
 	I     *big.Int // int
 	B     bool     // bool
 	Bound []*Term  // forall/exists
-	Pats  []*Term  // optional patterns
+	Pats  []*Term  // optional patterns: one multi-pattern, or alternatives when AltPats
+	AltPats bool
 	key   string
 }
 
@@ -135,7 +136,13 @@ func (t *Term) smt() string {
 			sb.WriteString("(" + smtName(b.Name) + " " + string(b.Sort) + ")")
 		}
 		sb.WriteString(") ")
-		if len(t.Pats) > 0 {
+		if len(t.Pats) > 0 && t.AltPats {
+			sb.WriteString("(! " + t.Args[0].String())
+			for _, p := range t.Pats {
+				sb.WriteString(" :pattern (" + p.String() + ")")
+			}
+			sb.WriteString("))")
+		} else if len(t.Pats) > 0 {
 			sb.WriteString("(! " + t.Args[0].String() + " :pattern (")
 			for i, p := range t.Pats {
 				if i > 0 {
@@ -529,7 +536,7 @@ func Subst(t *Term, m map[string]*Term) *Term {
 		for _, p := range t.Pats {
 			np = append(np, Subst(p, m2))
 		}
-		return &Term{Op: t.Op, Sort: SBool, Bound: t.Bound, Args: []*Term{nb}, Pats: np}
+		return &Term{Op: t.Op, Sort: SBool, Bound: t.Bound, Args: []*Term{nb}, Pats: np, AltPats: t.AltPats}
 	}
 	changed := false
 	na := make([]*Term, len(t.Args))
@@ -783,4 +790,50 @@ func Script(facts []*Term, goal *Term, ufs map[string]*UFSig, axioms []*Term) st
 	}
 	sb.WriteString("(check-sat)\n")
 	return sb.String()
+}
+
+// selectPatterns: select terms of body whose index mentions every bound variable and
+// whose array mentions none; used as alternative triggers.
+func selectPatterns(body *Term, bound []*Term) []*Term {
+	names := map[string]bool{}
+	for _, b := range bound {
+		names[b.Name] = true
+	}
+	var out []*Term
+	seen := map[string]bool{}
+	var mentions func(t *Term, acc map[string]bool)
+	mentions = func(t *Term, acc map[string]bool) {
+		if t.Op == "var" && names[t.Name] {
+			acc[t.Name] = true
+		}
+		for _, a := range t.Args {
+			mentions(a, acc)
+		}
+	}
+	var walk func(t *Term)
+	walk = func(t *Term) {
+		if t.Op == "forall" || t.Op == "exists" {
+			return
+		}
+		if t.Op == "select" {
+			ia, aa := map[string]bool{}, map[string]bool{}
+			mentions(t.Args[1], ia)
+			mentions(t.Args[0], aa)
+			if len(ia) == len(names) && len(aa) == 0 {
+				k := t.String()
+				if !seen[k] {
+					seen[k] = true
+					out = append(out, t)
+				}
+			}
+		}
+		for _, a := range t.Args {
+			walk(a)
+		}
+	}
+	walk(body)
+	if len(out) > 6 {
+		out = out[:6]
+	}
+	return out
 }
